@@ -2256,7 +2256,10 @@ async fn handle_packet(
     } else {
         None
     };
-    let b = packet[0];
+    // Relayed data (TURN Data indication / ChannelData) may be empty.
+    let Some(&b) = packet.first() else {
+        return;
+    };
     if b < 2 {
         // STUN
         match StunMessage::decode(packet) {
